@@ -1,6 +1,7 @@
 package c15
 
 import (
+	"bytes"
 	"encoding/base64"
 	"encoding/binary"
 	"encoding/json"
@@ -64,6 +65,7 @@ type xferCase struct {
 	Tsig          *tsigSpec
 	OtherKey      *tsigSpec // a second key the receiver holds as well (Transfer.TsigSecret has both); the request is signed with Tsig
 	Reuse         int       // this many complete fault-free transfers were made with the SAME dns.Transfer value (a fresh connection each) before the one under observation
+	RolledFrom    []byte    `json:",omitempty"` // key roll-over: the secret the key NAME of Tsig had before; a complete signed transfer is made with it (another dns.Transfer value, its own key set) before anything else happens
 	Fault         faultSpec
 	Sender        string // harness | library | libout
 	Seg           []int
@@ -333,6 +335,9 @@ func (c xferCase) valid() string {
 		if c.Tsig == nil || len(o.Secret) == 0 || o.KeyName != strings.ToLower(o.KeyName) || o.KeyName == c.Tsig.KeyName {
 			return "second key: needs TSIG and another key name"
 		}
+	}
+	if len(c.RolledFrom) > 0 && (c.Tsig == nil || bytes.Equal(c.RolledFrom, c.Tsig.Secret)) {
+		return "key roll-over: needs TSIG and an earlier secret that differs from the present one"
 	}
 	if c.Fault.Kind == "otherkey" && (c.OtherKey == nil || c.Sender != "harness") {
 		return "fault otherkey needs a second configured key"
@@ -706,14 +711,22 @@ func buildPlan(c xferCase, reqMAC []byte, now uint64) plan {
 			switch v {
 			case 0: // later envelope chained to the request MAC instead of the previous envelope
 				o.prior = reqMAC
+				p.alterAt = "later-envelope-chained-to-the-request-mac"
 			case 1: // later envelope digests the full TSIG variables
 				o.timersOnly = false
+				p.alterAt = "later-envelope-digests-all-variables"
+				if i == 1 && len(envs[0]) == 1 {
+					p.alterAt = "second-envelope-after-a-lone-soa-digests-all-variables"
+				}
 			case 2: // first envelope digests timers only
 				o.timersOnly = true
+				p.alterAt = "first-envelope-digests-timers-only"
 			case 3: // first envelope without the request MAC
 				o.prior = nil
+				p.alterAt = "first-envelope-without-the-request-mac"
 			case 4: // chained to the envelope before the previous one
 				o.prior = macs[i-2]
+				p.alterAt = "chained-to-the-envelope-before-the-previous"
 			}
 			p.firstBad, p.strong, p.prefix = i, true, true
 		}
@@ -727,7 +740,10 @@ func buildPlan(c xferCase, reqMAC []byte, now uint64) plan {
 			p.firstBad, p.strong, p.prefix = i, true, true
 		}
 		if hit && f.Kind == "wrongkey" {
-			if f.Val%2 == 0 {
+			if f.Val%2 == 0 && len(c.RolledFrom) > 0 {
+				// the sender still signs this envelope with the secret the key name had BEFORE the roll-over
+				k.Secret = c.RolledFrom
+			} else if f.Val%2 == 0 {
 				k.Secret = append([]byte{}, k.Secret...)
 				k.Secret[0] ^= 0x01
 			} else {
@@ -1527,11 +1543,42 @@ func checkFaulty(c xferCase, p plan, r result) error {
 	return nil
 }
 
+// rolledTransfer: what happened under the key name of the case before its secret was changed - a short
+// signed AXFR ([SOA] [A SOA]) received by a dns.Transfer value of its own whose key set maps the key name
+// to the EARLIER secret, sent by the harness's reference signer with that secret.
+func (c xferCase) rolledTransfer() xferCase {
+	return xferCase{Mode: "axfr", Zone: c.Zone, QID: c.QID ^ 0x5aa5, Serial: c.Serial, Recs: []recSpec{{T: "A", Owner: "www", V: 1}}, Sizes: []int{1, 2},
+		Tsig: &tsigSpec{KeyName: c.Tsig.KeyName, Alg: c.Tsig.Alg, Secret: c.RolledFrom}, Sender: "harness"}
+}
+
+// checkXfer: one history. A key roll-over under an unchanged key name (RolledFrom) puts a complete transfer
+// with the earlier secret in front of it: which secret signs and verifies is decided by the key set of the
+// dns.Transfer (dns.Server) in hand, whatever was used under that name before.
 func checkXfer(c xferCase) error {
 	if why := c.valid(); why != "" {
 		pbt.Note(nil, false, "invalid-case")
 		return nil
 	}
+	if len(c.RolledFrom) == 0 {
+		return checkXfer1(c)
+	}
+	pc := c.rolledTransfer()
+	r, _, err := streamOnce(pc, newTransfer(pc, nil))
+	if err == nil {
+		err = checkComplete(pc, r)
+	}
+	if err != nil {
+		kb, _ := json.Marshal(c)
+		pbt.Note(kb, true, "key-rolled-over-under-one-name")
+		return pbt.Errf("transfer signed with the earlier secret of key %q (receiver configured with that secret): %v", c.Tsig.KeyName, err)
+	}
+	if err := checkXfer1(c); err != nil {
+		return pbt.Errf("after a transfer made by ANOTHER dns.Transfer value with an earlier secret under the same key name %q: %v", c.Tsig.KeyName, err)
+	}
+	return nil
+}
+
+func checkXfer1(c xferCase) error {
 	kb, _ := json.Marshal(c)
 	nenv := len(c.Sizes)
 	classes := []string{"mode=" + c.Mode, "sender=" + c.Sender, fmt.Sprintf("tsig=%v", c.Tsig != nil), "fault=" + orNone(c.Fault.Kind),
@@ -1552,6 +1599,18 @@ func checkXfer(c xferCase) error {
 	classes = append(classes, c.typeClasses()...)
 	if c.OtherKey != nil {
 		classes = append(classes, "receiver-holds-two-keys")
+	}
+	if len(c.RolledFrom) > 0 {
+		classes = append(classes, "key-rolled-over-under-one-name", "key-rolled-over/sender="+c.Sender+"/fault="+orNone(c.Fault.Kind))
+	}
+	if nenv >= 2 && c.Sizes[0] == 1 {
+		// the opening SOA travels alone and more envelopes follow (RFC 5936 2.2: any composition is legal); with
+		// TSIG the second envelope is the first one digested with the timers only (RFC 8945 5.3.1)
+		q := "ixfr"
+		if c.Mode == "axfr" {
+			q = "axfr"
+		}
+		classes = append(classes, fmt.Sprintf("first-envelope=lone-soa+more-follow/tsig=%v/question=%s", c.Tsig != nil, q))
 	}
 	if c.Reuse > 0 {
 		classes = append(classes, fmt.Sprintf("reused-transfer=%d/tsig=%v/sender=%s", c.Reuse, c.Tsig != nil, c.Sender))
@@ -2006,6 +2065,14 @@ func genCase(t *rapid.T) xferCase {
 		}
 		if rapid.IntRange(0, 3).Draw(t, "two-keys") == 0 {
 			c.OtherKey = genOtherKey(t) // the receiver holds a second key; nothing else changes
+		}
+		if rapid.IntRange(0, 7).Draw(t, "rolled") == 0 {
+			// the key name had another secret before, and a transfer was made with it (by another dns.Transfer
+			// value): what signs and verifies now is the key set in hand
+			c.RolledFrom = rapid.SliceOfN(rapid.Byte(), 1, 64).Draw(t, "secret0")
+			if bytes.Equal(c.RolledFrom, c.Tsig.Secret) {
+				c.RolledFrom = append([]byte{c.RolledFrom[0] ^ 0x55}, c.RolledFrom[1:]...)
+			}
 		}
 	}
 	c.Sender = "harness"
